@@ -619,11 +619,11 @@ Proof.
 Qed.
 
 Theorem mat_addcol_ok extra_cols extra_mat m ents m' :
-  0 < extra_cols -> WF m -> mat_addcol extra_cols extra_mat m ents = Ok m' ->
+  WF m -> mat_addcol extra_cols extra_mat m ents = Ok m' ->
   WF m' /\ mcols m' = S (mcols m) /\ mrows m' = mrows m /\
   (forall j, j < mcols m -> col_slots m' j = col_slots m j) /\ col_slots m' (mcols m) = map ent_slot ents.
 Proof.
-  intros Hec W. unfold mat_addcol. destruct (forallb (fun e => fst e <? mrows m) ents) eqn:V; [|discriminate]. simpl negb. cbv iota.
+  intros W. unfold mat_addcol. destruct (forallb (fun e => fst e <? mrows m) ents) eqn:V; [|discriminate]. simpl negb. cbv iota.
   set (k := length ents). set (cs := if colsize m <? mcols m + 1 then colsize m + extra_cols else colsize m).
   set (grow := mfree m <? k + 1).
   set (sl := if grow then slots m ++ repeat dslot (k + extra_mat + 1) else slots m).
